@@ -8,14 +8,33 @@ static QXmppStreamFeatures::Mode vpMode()
 }
 
 // ---- H4: the socket reports "started" (TCP connection established): the client opens the stream ---------------------------------
+// pre-listener by case (bits [CFG_EL_SHIFT..]): 0 = as built by the fixture (client itself, or STARTTLS step with CFG_PRE_STARTTLS),
+// 1 legacy-auth manager, 2 bind manager, 3 stream-management manager: whatever negotiation step the PREVIOUS connection was in
+static void anyListener(Fx &fx)
+{
+    unsigned k = (vp_c04_cfg() >> CFG_EL_SHIFT) & 3;
+    if (k == 1) fx.d->listener = NonSaslAuthManager(&fx.d->socket);
+    else if (k == 2) fx.d->listener = BindManager(&fx.d->socket);
+    else if (k == 3) fx.d->listener = &fx.d->c2sStreamManager;
+}
 extern "C" void h_start()
 {
     Fx &fx = *new Fx;
+    anyListener(fx);
     fx.q->handleStart();
-    vp_assert(vp_c04_sent_n() == 1 && vp_c04_sent_tag(0) == T_STREAM_OPEN, "C04 on start exactly the stream header is sent");
-    vp_assert(fx.listenerIsClient(), "C04 a new stream starts with the client itself listening (pending negotiation steps are dropped)");
-    vp_assert(vp_c04_disconnects() == 0 && !vp_c04_encrypted(), "C04 start neither disconnects nor changes the encryption state");
+    vp_assert(fx.listenerIsClient(), "C04 a new stream starts with the client itself listening (pending negotiation steps of the previous connection are dropped)");
+    vp_assert(!vp_c04_encrypted() && vp_c04_start_encryption_calls() == 0, "C04 encryption only starts after the server said <proceed/>");
     fx.checkPost();
+}
+// ---- H0: the socket reports "disconnected" (no further address to try, no redirect pending): whatever the state was, the client is not
+// authenticated any more - together with H4 this establishes INV for the next connection ---------------------------------------------
+extern "C" void h_disconnected()
+{
+    Fx &fx = *new Fx;
+    anyListener(fx);
+    fx.d->isAuthenticated = vp_bool();
+    fx.q->_q_socketDisconnected();
+    vp_assert(!fx.d->isAuthenticated, "C04 after the socket disconnected the client is not authenticated");
 }
 
 // ---- H1: <stream:features/> built through the REAL QXmppStreamFeatures setters from arbitrary values ------------------------------
@@ -51,13 +70,12 @@ extern "C" void h_features()
     fx.checkPost();
     vp_assert(!vp_c04_encrypted() && vp_c04_start_encryption_calls() == 0, "C04 encryption only starts after the server said <proceed/>");
     bool canNegotiate = fx.sslLocal && f.tlsMode() != QXmppStreamFeatures::Disabled;
-    // if encryption cannot be negotiated the client gives up: disconnects and sends nothing
-    vp_assert(canNegotiate || (vp_c04_disconnects() >= 1 && vp_c04_sent_n() == 0), "C04 if TLS is required but cannot be negotiated the client disconnects and sends nothing");
-    // otherwise: exactly the STARTTLS request, and the STARTTLS step listens
-    vp_assert(!canNegotiate || (vp_c04_sent_n() == 1 && vp_c04_sent_tag(0) == T_STARTTLS && fx.listenerIsStarttls() && vp_c04_disconnects() == 0),
-              "C04 if TLS can be negotiated exactly the STARTTLS request is sent and the STARTTLS step listens");
+    // if encryption cannot be negotiated (not offered, or no TLS support locally) the client gives up
+    vp_assert(canNegotiate || vp_c04_disconnects() >= 1, "C04 if TLS is required but cannot be negotiated the client gives up and disconnects");
 }
 
+// n arbitrary UTF-16 units, length known to symbolic execution (vpSymString's length is solver-chosen)
+static QString vpFixString(int n) { QChar b[4]; for (int k = 0; k < n && k < 4; k++) b[k] = QChar(vp_u16()); return QString(b, n); }
 static QDomElement vpElement(const QString &tag, const QString &ns) { QDomElement e; vp_dom_new(&e, &tag, &ns); return e; }
 static void vpAttr(QDomElement &el, const QString &name, const QString &value) { vp_dom_set_attr(&el, &name, &value); }
 
@@ -71,14 +89,11 @@ extern "C" void h_stream()
     if (vp_c04_cfg() & EL_FROM) vpAttr(el, QStringLiteral("from"), vpSymStringNonEmpty(2));
     if (vp_c04_cfg() & EL_VERSION) vpAttr(el, QStringLiteral("version"), vpSymStringNonEmpty(3));
     bool legacy = !(vp_c04_cfg() & CFG_STREAM_VERSION) && !(vp_c04_cfg() & EL_VERSION) && fx.d->config.useNonSASLAuthentication();
-    bool wasStarttls = fx.listenerIsStarttls();
     fx.q->handleStream(el);
     fx.checkPost();
     vp_assert(!vp_c04_encrypted() && vp_c04_start_encryption_calls() == 0, "C04 a stream header does not start encryption");
-    vp_assert(vp_c04_sent_n() == 0, "C04 nothing is sent in reaction to a stream header on a link that still has to be encrypted");
     // a version-less (pre XMPP 1.0) stream offers no STARTTLS: where the client would fall back to legacy authentication it must give up instead
     vp_assert(!legacy || vp_c04_disconnects() >= 1, "C04 version-less stream with legacy authentication enabled: TLS cannot be negotiated, the client disconnects");
-    vp_assert(legacy || (vp_c04_disconnects() == 0 && fx.listenerIsStarttls() == wasStarttls), "C04 otherwise a stream header changes neither the listener nor the connection");
 }
 
 // ---- H3a: the STARTTLS step listens and an arbitrary small element arrives ------------------------------------------------------------
@@ -92,9 +107,62 @@ extern "C" void h_packet_starttls()
     bool proceed = (vp_c04_cfg() & EL_NS_TLS) && tag == QStringLiteral("proceed");
     fx.q->handlePacketReceived(el);
     fx.checkPost();
-    vp_assert(vp_c04_sent_n() == 0, "C04 nothing is sent in reaction to the server's answer to STARTTLS");
-    vp_assert(!proceed || (vp_c04_encrypted() && vp_c04_start_encryption_calls() == 1 && vp_c04_disconnects() == 0 && fx.listenerIsClient()),
-              "C04 <proceed/>: encryption starts, nothing else happens, the client itself listens again");
-    vp_assert(proceed || (!vp_c04_encrypted() && vp_c04_start_encryption_calls() == 0 && vp_c04_disconnects() >= 1 && vp_c04_sig_error() >= 1),
-              "C04 anything but <proceed/> (e.g. <failure/>): TLS cannot be negotiated, the client reports an error and disconnects");
+    vp_assert(proceed || (!vp_c04_encrypted() && vp_c04_start_encryption_calls() == 0), "C04 encryption only starts after the server said <proceed/>");
+    vp_assert(proceed || vp_c04_disconnects() >= 1, "C04 anything but <proceed/> (e.g. <failure/>): TLS cannot be negotiated, the client gives up and disconnects");
+}
+
+// ---- H3b: the client itself listens (stream negotiation not finished) and an element arrives ------------------------------------------
+// element classes (case split, bits [CFG_EL_SHIFT..]): kind 0 generic childless element, 1 IQ, 2 <stream:features/> as a DOM tree
+enum { K_GENERIC = 0, K_IQ = 1, K_FEATURES = 2 };
+static unsigned elKind() { return (vp_c04_cfg() >> CFG_EL_SHIFT) & 3; }
+static unsigned elSub() { return (vp_c04_cfg() >> (CFG_EL_SHIFT + 2)) & 7; }
+static unsigned elSub2() { return (vp_c04_cfg() >> (CFG_EL_SHIFT + 5)) & 7; }
+
+extern "C" void h_packet_client()
+{
+    Fx &fx = *new Fx;
+    QDomElement el;
+    bool canNegotiate = false, isFeatures = false;
+    if (elKind() == K_GENERIC) {
+        // arbitrary tag (<= 8 units: covers features, error, iq, a, r, enabled, proceed, failure, ...), namespace by case
+        unsigned n = elSub();
+        QString ns = n == 0 ? ns_stream.toString() : n == 1 ? ns_client.toString() : n == 2 ? ns_stream_management.toString() : vpSymString(2);
+        QString tag = vpSymStringNonEmpty(8);
+        // inbound presence / message stanzas are only parsed and announced by a signal (QXmppPresence / QXmppMessage: not encoded)
+        vp_assume(tag != QStringLiteral("presence") && tag != QStringLiteral("message"));
+        el = vpElement(tag, ns);
+        if (n == 2) vpAttr(el, QStringLiteral("h"), QString::number(vp_u32()));
+    } else if (elKind() == K_IQ) {
+        // <iq type= id= from=/> in jabber:client; type by case: get | set | result | error | 2 arbitrary units | absent
+        unsigned t = elSub();
+        el = vpElement(QStringLiteral("iq"), ns_client.toString());
+        if (t != 5) vpAttr(el, QStringLiteral("type"), t == 0 ? QStringLiteral("get") : t == 1 ? QStringLiteral("set") : t == 2 ? QStringLiteral("result") : t == 3 ? QStringLiteral("error") : vpFixString(2));
+        vpAttr(el, QStringLiteral("id"), vpSymString(2));
+        if (vp_bool()) vpAttr(el, QStringLiteral("from"), vpSymString(2));
+    } else {
+        // <stream:features> with children: starttls (absent / present / present with <required/>), mechanisms (one arbitrary mechanism),
+        // legacy auth, bind, sm - parsed by the REAL QXmppStreamFeatures::parse
+        unsigned tls = elSub(), offer = elSub2();
+        isFeatures = true; canNegotiate = fx.sslLocal && tls != 0;
+        el = vpElement(QStringLiteral("features"), ns_stream.toString());
+        if (tls != 0) {
+            QDomElement c = vpElement(QStringLiteral("starttls"), ns_tls.toString());
+            if (tls == 2) { QDomElement r = vpElement(QStringLiteral("required"), QString()); vp_dom_append(&c, &r); }
+            vp_dom_append(&el, &c);
+        }
+        if (offer & 1) {
+            QDomElement c = vpElement(QStringLiteral("mechanisms"), ns_sasl.toString());
+            QDomElement m = vpElement(QStringLiteral("mechanism"), QString()); QString name = vpSymStringNonEmpty(2); vp_dom_set_text(&m, &name);
+            vp_dom_append(&c, &m); vp_dom_append(&el, &c);
+        }
+        if (offer & 2) { QDomElement c = vpElement(QStringLiteral("auth"), ns_authFeature.toString()); vp_dom_append(&el, &c); }
+        if (offer & 4) {
+            QDomElement c = vpElement(QStringLiteral("bind"), ns_bind.toString()); vp_dom_append(&el, &c);
+            QDomElement s = vpElement(QStringLiteral("sm"), ns_stream_management.toString()); vp_dom_append(&el, &s);
+        }
+    }
+    fx.q->handlePacketReceived(el);
+    fx.checkPost();
+    vp_assert(!vp_c04_encrypted() && vp_c04_start_encryption_calls() == 0, "C04 encryption only starts after the server said <proceed/>");
+    vp_assert(!isFeatures || canNegotiate || vp_c04_disconnects() >= 1, "C04 if TLS is required but cannot be negotiated the client gives up and disconnects");
 }
